@@ -226,7 +226,10 @@ def cross_zone_pair(acc, mods, za, ia, zb, ib):
     # the same endpoints handed over as native datetimes
     na = dt_.datetime(*obs.fields(a), tzinfo=a.tzinfo, fold=a.fold)
     nb = dt_.datetime(*obs.fields(b), tzinfo=b.tzinfo, fold=b.fold)
-    for lbl, fn in (("interval(native,native)", lambda: pendulum.interval(na, nb)), ("pendulum-minus-native", lambda: b - na)):
+    for lbl, fn in (("interval(native,native)", lambda: pendulum.interval(na, nb)), ("pendulum-minus-native", lambda: b - na),
+                    ("interval(a,b)", lambda: pendulum.interval(a, b)), ("Interval(a,b)", lambda: pendulum.Interval(a, b)),
+                    ("interval(b,a,absolute)", lambda: pendulum.interval(b, a, absolute=True)),
+                    ("a.diff(b)", lambda: a.diff(b)), ("b.diff(a)", lambda: b.diff(a))):
         acc.c["evaluations"] += 1
         acc.c["transitions"] += 1
         try:
